@@ -120,15 +120,18 @@ template <class M> bool raw_try(M&, long) { return false; }
 template <class M> auto raw_unlock(M& m, int) -> decltype(m.unlock()) { m.unlock(); }
 template <class M> void raw_unlock(M&, long) {}
 
+bool g_upgrade_focus = false;   // c08b: reader / upgrade / downgrade chains only, longer programs
+
 template <class M>
 void run_type(hx::Desc& d) {
     using T = Traits<M>;
     using SL = typename M::scoped_lock;
-    int nthreads = (int)sim::draw_range(2, 4, "threads");
+    const bool focus = g_upgrade_focus;
+    int nthreads = (int)sim::draw_range(2, focus ? 3 : 4, "threads");
     // generate a legal per-fiber op sequence
     std::vector<std::vector<Step>> prog(nthreads);
     for (int t = 0; t < nthreads; ++t) {
-        int nops = (int)sim::draw_range(1, 6, "nops");
+        int nops = (int)sim::draw_range(focus ? 2 : 1, focus ? 8 : 6, "nops");
         int held = 0;  // 0 none, 1 read(scoped), 2 write(scoped), 3 raw write, 4 raw read
         std::string s = hx::fmt("T%d:", t);
         for (int i = 0; i < nops; ++i) {
@@ -136,14 +139,17 @@ void run_type(hx::Desc& d) {
             if (held == 0) {
                 std::vector<Op> c = {ACQ_W, TRY_W};
                 if (T::rw) { c.push_back(ACQ_R); c.push_back(TRY_R); c.push_back(ACQ_R); }
-                if (T::raw) { c.push_back(RAW_LOCK); c.push_back(RAW_TRY); if (T::rw) { c.push_back(RAW_LOCK_SH); c.push_back(RAW_TRY_SH); } }
+                if (focus) c = {ACQ_R, ACQ_R, TRY_R, ACQ_W};
+                else if (T::raw) { c.push_back(RAW_LOCK); c.push_back(RAW_TRY); if (T::rw) { c.push_back(RAW_LOCK_SH); c.push_back(RAW_TRY_SH); } }
                 op = c[sim::draw(c.size(), "op")];
             } else if (held == 1) {
                 std::vector<Op> c = {REL, UPG, UPG};
+                if (focus) { c.push_back(UPG); c.push_back(UPG); }
                 op = c[sim::draw(c.size(), "op")];
             } else if (held == 2) {
                 std::vector<Op> c = {REL};
                 if (T::rw) c.push_back(DOWN);
+                if (focus) { c.push_back(DOWN); c.push_back(DOWN); }
                 op = c[sim::draw(c.size(), "op")];
             } else {
                 op = RAW_UNLOCK;
@@ -307,4 +313,17 @@ SIM_SCENARIO(scen_c08, "c08", "C08", 400000, 1500) {
     case 6: run_type<tbb::speculative_spin_mutex>(d); break;
     case 7: run_type<tbb::speculative_spin_rw_mutex>(d); break;
     }
+}
+
+// c08b: upgrade / downgrade chains on the two queue-based reader-writer locks (successor states UPGRADE_WAITING /
+// UPGRADE_LOSER met by a winner that downgrades, upgrades again and releases)
+SIM_SCENARIO(scen_c08b, "c08b", "C08", 400000, 1500) {
+    hx::Desc d;
+    sim::g_cfg.tso = sim::draw_bool("tso");
+    int type = (int)sim::draw(4, "locktype");
+    g_upgrade_focus = true;
+    static const char* const names[] = {"queuing_rw_mutex", "queuing_rw_mutex", "queuing_rw_mutex", "spin_rw_mutex"};
+    d.add(hx::fmt("lock=%s tso=%d upgrade-focus", names[type], (int)sim::g_cfg.tso));
+    if (type == 3) run_type<tbb::spin_rw_mutex>(d); else run_type<tbb::queuing_rw_mutex>(d);
+    g_upgrade_focus = false;
 }
